@@ -298,6 +298,11 @@ func (s *Server) deliver(rsps jmessages, ch sender, elapsed time.Duration) error
 		}
 	}
 
+	// A batch retained past shutdown (see stopLocked) has no channel to reply
+	// on; its responses can only be errors for invalid requests, so drop them.
+	if ch == nil {
+		return nil
+	}
 	nw, err := encode(ch, rsps)
 	bytesWrittenCount.Add(int64(nw))
 	return err
